@@ -98,6 +98,7 @@ impl SigV4Authenticator {
 //@ end
 
 //@ fn auth.rs impl SigV4Authenticator :: prevalidate
+//@ hideutf8
 //@ props C08 C03 C04 C13 C17
 //@ ret r
 //@ replace 1 `self.credential().split('/').collect::<Vec<&str>>()` => `str_split_to_vec(self.credential(), '/')`
@@ -126,6 +127,7 @@ impl SigV4Authenticator {
 //@ end
 
 //@ fn auth.rs impl SigV4Authenticator :: get_string_to_sign
+//@ hideutf8
 //@ props C08 C01 C03 C16 C17
 //@ ret r
 //@ replace 1 `self.credential().split_once('/').map(|x| x.1)` => `str_after_first(self.credential(), '/')`
@@ -149,6 +151,7 @@ impl SigV4Authenticator {
     }
 
 //@ fn auth.rs impl SigV4Authenticator :: get_signing_key
+//@ hideutf8
 //@ props C08 C03 C14 C17
 //@ ret r
 //@ replace 1 `self.credential().split('/').next()` => `str_split_first_piece(self.credential(), '/')`
@@ -177,6 +180,7 @@ impl SigV4Authenticator {
     }
 
 //@ fn auth.rs impl SigV4Authenticator :: validate_signature
+//@ hideutf8
 //@ props C08 C01 C02 C14 C15 C17 C13
 //@ ret r
 //@ spec
